@@ -296,6 +296,7 @@ type Env struct {
 
 	observing    bool
 	auditLatched bool // an audit write failed and the process was not restarted
+	diskFaultRun bool // this run injects disk-full calls
 	parkAudit    bool
 	parkHTTP     bool
 
